@@ -181,8 +181,8 @@ class Interp:
             if self.c.branch(isn, f"{attr}-is-None"):
                 return None
         term = z3.Select(self.hget(name, arr(Ref, sort_of(inner)), heap), obj.ref)
-        if not spec and inner.kind in ("obj", "dict", "opaque"):
-            self.closed_fact(name, obj.ref, inner)
+        if inner.kind in ("obj", "dict", "opaque"):
+            self.closed_fact(name, obj.ref, inner)  # also at reads made by contract clauses: the fact is about the WF snapshots
         return self.wrap(term, inner, fr)
 
     def closed_fact(self, name, oref, t):
